@@ -36,7 +36,15 @@ P6 == [sets |-> <<"heavy", "heavy", "light">>,
        tasks |-> <<T(1, <<>>), T(2, <<>>), T(3, <<O("wait", 1)>>), T(3, <<O("wait", 2)>>)>>,
        main |-> <<O("sched", 1), O("sched", 2), O("sched", 3), O("sched", 4), O("wait", 3), O("wait", 1), O("wait", 2)>>]
 
-MCProgs == <<P1, P2, P3, P4, P5, P6>>
+(* 7: STACK INVERSION through a future: the future's body waits (and may steal the task that   *)
+(*    gets the future); 8: the same through a task set: X waits on the set of Y, Y itself waits *)
+P7 == [sets |-> <<"light", "light">>,
+       tasks |-> <<T(0, <<O("sched", 3), O("wait", 2)>>), T(1, <<O("get", 1)>>), T(2, <<>>)>>,
+       main |-> <<O("async", 1), O("sched", 2), O("wait", 1), O("get", 1)>>]
+P8 == [sets |-> <<"light", "light", "light">>,
+       tasks |-> <<T(1, <<O("sched", 3), O("wait", 3)>>), T(2, <<O("wait", 1)>>), T(3, <<>>)>>,
+       main |-> <<O("sched", 1), O("sched", 2), O("wait", 2), O("wait", 1)>>]
+MCProgs == <<P1, P2, P3, P4, P5, P6, P7, P8>>
 C(p, nw, wps, inl) == [nw |-> nw, p |-> p, wps |-> wps, inl |-> inl]
 
 (* the original waiters: the cross-wait programs starve, the pure fork-join / future ones do not *)
@@ -47,5 +55,7 @@ CfgNoFixForkJoin == {C(p, nw, FALSE, inl) : p \in {2, 3, 4}, nw \in 0 .. 2, inl 
 CfgCover == {C(1, 1, TRUE, FALSE)}
 CfgQuick == {C(p, 1, TRUE, FALSE) : p \in 1 .. 6} \cup {C(p, 2, TRUE, FALSE) : p \in {1, 3, 5}}
             \cup {C(p, 0, TRUE, FALSE) : p \in {1, 3, 4}} \cup {C(p, 1, TRUE, TRUE) : p \in {2, 4}}
+(* known finding: a waiter steals a task that blocks on work suspended beneath it on the same stack *)
+CfgInversion == {C(p, nw, TRUE, FALSE) : p \in {7, 8}, nw \in 1 .. 2}
 CfgThorough == {C(p, nw, TRUE, inl) : p \in 1 .. 6, nw \in 0 .. 3, inl \in BOOLEAN}
 =============================================================================
